@@ -100,12 +100,49 @@ def indexFrom {α : Type} : Nat → List α → List (Nat × α)
 /-- a registration list with the position of every entry (its identity in the logs) -/
 def indexed {α : Type} (l : List α) : List (Nat × α) := indexFrom 0 l
 
+/-- the `for _, index := range ctx.constraints` loop of an IndexingContext over the custom constraints of
+    store σ (they come after the built-in indexes): every one is called — the loop itself does not look
+    at the holder — and one that lists (stage, row id) calls `ctx.ErrHolder.SetError`; the holder `h`
+    keeps the first error it was given (errorz.ErrorHolderImpl.SetError) -/
+def ixLoop (σ : StoreId) (stage : Stage) (id : String) (isCreate : Bool) :
+    List (Nat × IxReg) → Option Err → TxSt → TxSt × Option Err
+  | [], h, st => (st, h)
+  | (i, vs) :: rest, h, st =>
+    let st := { st with preLog := st.preLog ++ [.ix ⟨σ, i, stage, id, isCreate⟩] }
+    if vs.contains (stage, id) then
+      ixLoop σ stage id isCreate rest (h.or (some (.ixVeto σ i))) (st.raise (.ixVeto σ i))
+    else ixLoop σ stage id isCreate rest h st
+
+/-- raise the holder's error (it was just recorded by the storage / index layer) -/
+def raiseOpt (st : TxSt) : Option Err → TxSt
+  | none => st
+  | some e => { st.raise e with inexact := true }
+
+/-- IndexingContext.ProcessBeforeUpdate / ProcessAfterUpdate / ProcessBeforeDelete of the context
+    `store.newIndexingContext(isCreate, ctx, id, holder)` of store σ.  The context of a child store is
+    chained to a context of the parent store with the SAME holder; the parent's context runs first;
+    each level runs its constraints only `if !ctx.ErrHolder.HasError()`.  Level P: the built-in
+    indexes (what they record is `builtin`), then P's custom constraints; level C: C's custom
+    constraints (C has no index of its own).  Returns the state and the holder. -/
+def ixStage (env : Env) (σ : StoreId) (stage : Stage) (id : String) (isCreate : Bool)
+    (builtin : Option Err) (h : Option Err) (st : TxSt) : TxSt × Option Err :=
+  let p : TxSt × Option Err :=
+    match h with
+    | some e => (st, some e)
+    | none => ixLoop .P stage id isCreate (indexed env.ixP) builtin (raiseOpt st builtin)
+  match σ with
+  | .P => p
+  | .C =>
+    match p.2 with
+    | some e => (p.1, some e)
+    | none => ixLoop .C stage id isCreate (indexed env.ixC) none p.1
+
 /-- EntityChangeState.processPreCommit -/
 def preCommitLoop (t : CrudReturns) (fl : Flow) : List (Nat × Reg) → TxSt → TxSt × Option Err
   | [], st => (st, none)
   | (_, .listener _ _) :: rest, st => preCommitLoop t fl rest st
   | (i, .constraint _ vetoes) :: rest, st =>
-    let st := { st with preLog := st.preLog ++ [⟨fl.store, i, fl.kind, fl.id, fl.parentEvent⟩] }
+    let st := { st with preLog := st.preLog ++ [.pre ⟨fl.store, i, fl.kind, fl.id, fl.parentEvent⟩] }
     if vetoes.contains (fl.kind, fl.id) then
       let st := st.raise (.veto fl.store i)
       match t.preCommitLoop with
@@ -187,11 +224,6 @@ def finishWrite (env : Env) (fault : Fault) (rLoad rParent rOwn : Ret) (finalHol
       | some r => (oe.1, r)
       | none => (oe.1, if finalHolder then holderRes holder else .ok)
 
-/-- raise the holder's error (it was just recorded by the storage / index layer) -/
-def raiseOpt (st : TxSt) : Option Err → TxSt
-  | none => st
-  | some e => { st.raise e with inexact := true }
-
 /-- the entity written by a create / update through store σ (the child store writes the parent
     fields through the parent's persist context and its own rank; the parent store leaves child data alone) -/
 def writtenEnt (σ : StoreId) (db : Db) (id : String) (f : PFields) (rank : String) : Ent :=
@@ -225,15 +257,11 @@ def create (env : Env) (fault : Fault) (σ : StoreId) (id : String) (f : PFields
     match afterPersist with
     | some r => (st, r)
     | none =>
-      -- indexingContext.ProcessAfterUpdate (skipped when the holder already has an error)
-      let ie : Option Err := match p.2 with
-        | some _ => none
-        | none => indexErr true db0 st.db id none f
-      let st := raiseOpt st ie
-      let holder := p.2.or ie
+      -- indexingContext.ProcessAfterUpdate (every level is skipped when the holder already has an error)
+      let ix := ixStage env σ .afterUpdate id true (indexErr true db0 st.db id none f) p.2 st
       let fl : Flow := { store := σ, kind := .created, id := id, initial := none, final := none, parentEvent := false }
       finishWrite env fault env.t.createLoad env.t.createParentEvent env.t.createOwnEvent
-        env.t.createFinalHolder fl holder p.1 st
+        env.t.createFinalHolder fl ix.2 p.1 ix.1
 
 /-- the body of BaseStore.Update once the child-store strategies declined -/
 def updateLocal (env : Env) (fault : Fault) (σ : StoreId) (id : String) (f : PFields) (rank : String)
@@ -269,16 +297,26 @@ def updateLocal (env : Env) (fault : Fault) (σ : StoreId) (id : String) (f : PF
         | .cont => (st.raise .notFound, .ok)
       | some base =>
         let old : Option PFields := (db0.get id).map (·.f)
-        let p := persist fault σ fd.1 f
-        let st := raiseOpt { st with db := db0.put id (writtenEnt σ db0 id f rank) } p.2
-        let ie : Option Err := match p.2 with
-          | some _ => none
-          | none => indexErr false db0 st.db id old f
-        let st := raiseOpt st ie
-        let holder := p.2.or ie
         let fl : Flow := { store := σ, kind := .updated, id := id, initial := some base, final := none, parentEvent := false }
-        finishWrite env fault env.t.updateLoad env.t.updateParentEvent env.t.updateOwnEvent
-          env.t.updateFinalHolder fl holder p.1 st
+        -- indexingContext.ProcessBeforeUpdate: the built-in indexes only remember the stored values;
+        -- the holder is the entity bucket (of the child store's path, for σ = C)
+        let bu := ixStage env σ .beforeUpdate id false none none st
+        let p := persist fault σ fd.1 f
+        -- the child strategy persists the parent fields through ctx.GetParentContext()
+        let h0 : Option Err := if σ = .C ∧ env.t.persistSharesHolder = false then none else bu.2
+        match h0 with
+        | some e =>
+          -- PersistContext / TypedBucket.ProceedWithSet: nothing is written while the holder has an
+          -- error (whatever PersistEntity itself records is dropped by the holder);
+          -- ProcessAfterUpdate is skipped at every level
+          finishWrite env fault env.t.updateLoad env.t.updateParentEvent env.t.updateOwnEvent
+            env.t.updateFinalHolder fl (some e) p.1 bu.1
+        | none =>
+          let st := raiseOpt { bu.1 with db := db0.put id (writtenEnt σ db0 id f rank) } p.2
+          -- indexingContext.ProcessAfterUpdate
+          let ix := ixStage env σ .afterUpdate id false (indexErr false db0 st.db id old f) p.2 st
+          finishWrite env fault env.t.updateLoad env.t.updateParentEvent env.t.updateOwnEvent
+            env.t.updateFinalHolder fl ix.2 p.1 ix.1
 
 /-- BaseStore.Update: the parent store first offers the update to its child-store strategy
     (ChildStoreUpdateHandler: the mapper finds child data for the id and hands the update to the
@@ -316,10 +354,12 @@ def processDeleteConstraints (env : Env) (fault : Fault) (σ : StoreId) (id : St
     | none => (st, fd.1, none, none)
     | some init =>
       let fl : Flow := { store := σ, kind := .deleted, id := id, initial := some init, final := none, parentEvent := false }
-      -- indexingContext.ProcessBeforeDelete (the child's context runs the parent's constraints)
-      let ce := deleteConstraintErr st.db id
-      let st := raiseOpt st ce
-      (st, fd.1, some fl, if env.t.pdcFinalHolder then ce else none)
+      -- `errHolder := &errorz.ErrorHolderImpl{}`; indexingContext.ProcessBeforeDelete (the child's
+      -- context runs the parent's constraints first); the built-in indexes have removed their entries
+      -- by the time a custom constraint vetoes
+      let ix := ixStage env σ .beforeDelete id false (deleteConstraintErr st.db id) none st
+      let st := if ix.2.isSome then { ix.1 with inexact := true } else ix.1
+      (st, fd.1, some fl, if env.t.pdcFinalHolder then ix.2 else none)
 
 def fireAll (env : Env) (r : Ret) : List Flow → TxSt → TxSt × Res
   | [], st => (st, .ok)
